@@ -1270,7 +1270,8 @@ impl Signature {
     /// (assuming that the argument count has already been checked)
     pub fn match_params_to_args<'a>(&'a self, args: &'a [Sp<ast::Expr>]) -> MatchedArgs<'a> {
         // TODO: variadics, keywords?
-        let positional_pairs = Box::new(self.params.iter().zip(args));
+        // parameters with a default (instruction padding) never take one of the arguments
+        let positional_pairs = Box::new(self.params.iter().filter(|param| param.default.is_none()).zip(args));
         MatchedArgs { positional_pairs }
     }
 }
